@@ -137,7 +137,38 @@ def _annotation_nodes(f: Func) -> t.Set[int]:
     return out
 
 
+_SEEDED: t.Set[t.Tuple[int, str]] = set()
+
+
+def seed_lengths(world: World, lens: Lengths, f: Func) -> None:
+    """len(<local byte string>) facts from the length summaries, handed to the interval analysis so that offsets that
+    are accumulated statement by statement (`off = nxt; nxt = off + len(part)`) are bounded flow-sensitively."""
+    key = (id(world), f.qual)
+    if key in _SEEDED:
+        return
+    _SEEDED.add(key)
+    changed = False
+    for n in body_nodes(f.node):
+        if isinstance(n, ast.Call) and unparse(n.func) == "len" and len(n.args) == 1 and isinstance(n.args[0], ast.Name) and n.args[0].id not in f.params:
+            name = n.args[0].id
+            if (f.qual, name) in world.len_of:
+                continue
+            stores = [x for x in body_nodes(f.node) if isinstance(x, ast.Name) and x.id == name and isinstance(x.ctx, ast.Store)]
+            if len(stores) != 1:
+                continue  # the fact must hold at every use: one definition only
+            try:
+                iv = lens.varlen(f, name, 0)
+            except RecursionError:
+                continue
+            if iv.lo is not None and iv.hi is not None:
+                world.len_of[(f.qual, name)] = iv
+                changed = True
+    if changed:
+        world.results.pop(f.qual, None)
+
+
 def to_bytes_ok(repo: Repo, world: World, lens: Lengths, f: Func, n: ast.Call) -> t.Tuple[bool, str]:
+    seed_lengths(world, lens, f)
     res = world.analyse(f)
     val = n.func.value  # type: ignore[attr-defined]
     okw, width = repo.try_fold(n.args[0], f.mod)
@@ -157,8 +188,24 @@ def to_bytes_ok(repo: Repo, world: World, lens: Lengths, f: Func, n: ast.Call) -
     return False, f"{unparse(val)} can be {shown} at to_bytes({width}{', signed' if signed else ''}): OverflowError escapes instead of a deliberate error"
 
 
+_BUSY: t.Set[t.Tuple[str, str]] = set()
+
+
 def len_expr_iv(world: World, lens: Lengths, f: Func, e: ast.expr, at: ast.AST) -> t.Optional[IV]:
     """Interval of an integer expression built from len(<bytes>) terms, constants and + ."""
+    if isinstance(e, ast.Name):
+        k = (f.qual, e.id)
+        if k in _BUSY:
+            return None  # defined in terms of itself (a running offset): left to the flow-sensitive analysis
+        _BUSY.add(k)
+        try:
+            return _len_expr_iv(world, lens, f, e, at)
+        finally:
+            _BUSY.discard(k)
+    return _len_expr_iv(world, lens, f, e, at)
+
+
+def _len_expr_iv(world: World, lens: Lengths, f: Func, e: ast.expr, at: ast.AST) -> t.Optional[IV]:
     res = world.analyse(f)
     if isinstance(e, ast.Call) and unparse(e.func) == "len" and len(e.args) == 1:
         a = e.args[0]
